@@ -50,6 +50,37 @@ Chk(st, v)      == IF v > Lim \/ v < -Lim THEN [st EXCEPT !.status = "oor"] ELSE
 
 Next_ == [k |-> "next", lab |-> ""]
 
+\* maps: a map variable holds [mp |-> c], c the cell of the map object (0: nil map); the
+\* object is [pres |-> set of keys, val |-> [0..3 -> Int]]; keys are taken modulo 4
+MapKeys == 0..3
+EmptyMap == [pres |-> {}, val |-> [k \in MapKeys |-> 0]]
+MapGet(st, mv, k) == IF mv.mp = 0 \/ k \notin st.cells[mv.mp].pres THEN 0 ELSE st.cells[mv.mp].val[k]
+MapLen(st, mv)    == IF mv.mp = 0 THEN 0 ELSE Cardinality(st.cells[mv.mp].pres)
+MapPut(st, mv, k, v) == Store(st, mv.mp, [pres |-> st.cells[mv.mp].pres \cup {k}, val |-> [st.cells[mv.mp].val EXCEPT ![k] = v]])
+
+\* strings: a string value is the sequence of its character codes ('a' = 97 ...)
+MaxStr == 10
+Chr(c) == CASE c = 97 -> "a" [] c = 98 -> "b" [] c = 99 -> "c" [] OTHER -> "?"
+RECURSIVE StrOf(_), StrLess(_, _)
+StrOf(cs) == IF cs = <<>> THEN "" ELSE Chr(Head(cs)) \o StrOf(Tail(cs))
+StrLess(a, b) == IF b = <<>> THEN FALSE ELSE IF a = <<>> THEN TRUE
+                 ELSE IF Head(a) # Head(b) THEN Head(a) < Head(b) ELSE StrLess(Tail(a), Tail(b))
+\* string expression (pure): literal, variable, concatenation
+RECURSIVE EvalStr(_, _, _)
+EvalStr(e, env, st) ==
+    CASE e.k = "slit" -> e.cs
+      [] e.k = "sv"   -> st.cells[env[e.s]].str
+      [] e.k = "scat" -> EvalStr(e.l, env, st) \o EvalStr(e.r, env, st)
+
+\* what the body of a loop iteration means for the loop labelled lab: leave it (with
+\* which control state) or go on with the next iteration
+LoopExit(b, lab) ==
+    IF b.st.status # "ok" THEN [exit |-> TRUE, ctl |-> Next_]
+    ELSE IF b.ctl.k \in {"ret", "goto"} THEN [exit |-> TRUE, ctl |-> b.ctl]
+    ELSE IF b.ctl.k = "brk" THEN [exit |-> TRUE, ctl |-> IF b.ctl.lab \in {"", lab} THEN Next_ ELSE b.ctl]
+    ELSE IF b.ctl.k = "cont" /\ b.ctl.lab \notin {"", lab} THEN [exit |-> TRUE, ctl |-> b.ctl]
+    ELSE [exit |-> FALSE, ctl |-> Next_]
+
 -------------------------------------------------------------------------------
 (* Semantics.  P is the program (function table); it is a parameter of every   *)
 (* operator because closures and calls need the function bodies.               *)
@@ -70,6 +101,15 @@ EvalE(P, e, env, st) ==
       [] e.k = "sl" ->        \* s[i] : the backing array is a cell shared by every copy of the slice
             [v |-> st.cells[st.cells[env[e.s]].back][e.ix + 1], st |-> st]
       [] e.k = "deref" -> [v |-> st.cells[st.cells[env[e.p]].ptr], st |-> st]      \* *p
+      [] e.k = "mget" ->      \* m[k] : zero when the key is absent or the map is nil
+            LET i == EvalE(P, e.i, env, st) IN
+            IF ~Ok(i.st) THEN i ELSE [v |-> MapGet(i.st, i.st.cells[env[e.s]], i.v % 4), st |-> i.st]
+      [] e.k = "mlen" -> [v |-> MapLen(st, st.cells[env[e.s]]), st |-> st]
+      [] e.k = "slen" -> [v |-> Len(st.cells[env[e.s]].str), st |-> st]
+      [] e.k = "scmp" ->      \* comparison of two strings
+            LET a == EvalStr(e.l, env, st)
+                b == EvalStr(e.r, env, st)
+            IN [v |-> CASE e.op = "eq" -> a = b [] e.op = "ne" -> a # b [] e.op = "lt" -> StrLess(a, b), st |-> st]
       [] e.k = "bin" ->
             LET l == EvalE(P, e.l, env, st)
                 r == EvalE(P, e.r, env, l.st)
@@ -180,13 +220,10 @@ ExecB(P, b, env, st, ctx) ==
 Loop3(P, s, env, st, ctx, vc) ==
     IF ~Ok(st) THEN [st |-> st, ctl |-> Next_] ELSE
     IF ~(st.cells[vc] < s.n) THEN [st |-> st, ctl |-> Next_] ELSE
-    LET b == ExecB(P, s.body, Bind(env, s.v, vc), st, ctx) IN
-    IF ~Ok(b.st) THEN [st |-> b.st, ctl |-> Next_] ELSE
-    IF b.ctl.k = "ret" THEN [st |-> b.st, ctl |-> b.ctl] ELSE
-    IF b.ctl.k = "brk" THEN
-        (IF b.ctl.lab \in {"", s.lab} THEN [st |-> b.st, ctl |-> Next_] ELSE [st |-> b.st, ctl |-> b.ctl])
-    ELSE IF b.ctl.k = "cont" /\ b.ctl.lab \notin {"", s.lab} THEN [st |-> b.st, ctl |-> b.ctl]
-    ELSE \* next iteration: copy the variable into a new cell, then the post statement
+    LET b == ExecB(P, s.body, Bind(env, s.v, vc), st, ctx)
+        x == LoopExit(b, s.lab)
+    IN IF x.exit THEN [st |-> b.st, ctl |-> x.ctl]
+       ELSE \* next iteration: copy the variable into a new cell, then the post statement
         LET nc  == NewId(b.st)
             st1 == Alloc(b.st, b.st.cells[vc] + 1)
         IN Loop3(P, s, env, st1, ctx, nc)
@@ -271,12 +308,8 @@ ExecS(P, s, env, st0, ctx) ==
                   IF ~Ok(s0) \/ i >= s.n THEN [st |-> s0, ctl |-> Next_] ELSE
                   LET vc == NewId(s0)
                       b  == ExecB(P, s.body, Bind(env, s.v, vc), Alloc(s0, i), ctx)
-                  IN IF ~Ok(b.st) THEN [st |-> b.st, ctl |-> Next_]
-                     ELSE IF b.ctl.k = "ret" THEN [st |-> b.st, ctl |-> b.ctl]
-                     ELSE IF b.ctl.k = "brk" THEN
-                          (IF b.ctl.lab \in {"", s.lab} THEN [st |-> b.st, ctl |-> Next_] ELSE [st |-> b.st, ctl |-> b.ctl])
-                     ELSE IF b.ctl.k = "cont" /\ b.ctl.lab \notin {"", s.lab} THEN [st |-> b.st, ctl |-> b.ctl]
-                     ELSE Rng(i + 1, b.st)
+                      x  == LoopExit(b, s.lab)
+                  IN IF x.exit THEN [st |-> b.st, ctl |-> x.ctl] ELSE Rng(i + 1, b.st)
                 l == Rng(0, st)
             IN [env |-> env, st |-> l.st, ctl |-> l.ctl]
       [] s.k = "tswitch" ->   \* switch { case c1: ... case c2: ... default: ... } : first true condition
@@ -371,6 +404,123 @@ ExecS(P, s, env, st0, ctx) ==
             THEN LET st1 == Emit1([st EXCEPT !.recd = TRUE], <<"rec", st.pval>>) IN
                  IF s.setr THEN R(env, Store(st1, env["r"], st1.cells[env["r"]] + 100)) ELSE R(env, st1)
             ELSE R(env, Emit1(st, <<"norec">>))
+      [] s.k = "mkmap" ->     \* m := map[int]int{k1: e1, k2: e2}  |  m := make(map[int]int)  |  var m map[int]int
+            IF s.form = "nil" THEN R(Bind(env, s.s, NewId(st)), Alloc(st, [mp |-> 0])) ELSE
+            LET a == EvalArgs(P, s.es, env, st) IN
+            IF ~Ok(a.st) THEN R(env, a.st) ELSE
+            LET oc  == NewId(a.st)
+                obj == [pres |-> {s.ks[i] : i \in 1..Len(s.ks)},
+                        val  |-> [k \in MapKeys |-> IF \E i \in 1..Len(s.ks) : s.ks[i] = k
+                                                    THEN a.vs[CHOOSE i \in 1..Len(s.ks) : s.ks[i] = k] ELSE 0]]
+                st1 == Alloc(a.st, obj)
+            IN R(Bind(env, s.s, NewId(st1)), Alloc(st1, [mp |-> oc]))
+      [] s.k = "mshare" ->    \* m2 := m1 : both denote the same map
+            R(Bind(env, s.s, NewId(st)), Alloc(st, st.cells[env[s.from]]))
+      [] s.k = "mset" ->      \* m[k] = e  /  m[k] += e : key, then value; a nil map faults
+            LET i == EvalE(P, s.i, env, st)
+                v == EvalE(P, s.e, env, i.st)
+                mv == v.st.cells[env[s.s]]
+                n == IF s.op = "set" THEN v.v ELSE MapGet(v.st, mv, i.v % 4) + v.v
+            IN IF ~Ok(v.st) THEN R(env, v.st)
+               ELSE IF mv.mp = 0 THEN R(env, Panic(v.st, "fault"))
+               ELSE R(env, Chk(MapPut(v.st, mv, i.v % 4, n), n))
+      [] s.k = "mdel" ->      \* delete(m, k) : no effect on a nil map or an absent key
+            LET i == EvalE(P, s.i, env, st)
+                mv == i.st.cells[env[s.s]]
+            IN IF ~Ok(i.st) \/ mv.mp = 0 THEN R(env, i.st)
+               ELSE R(env, Store(i.st, mv.mp, [i.st.cells[mv.mp] EXCEPT !.pres = @ \ {i.v % 4}]))
+      [] s.k = "mok" ->       \* if v, ok := m[k]; ok { print(v) } else { print(-1) }
+            LET i == EvalE(P, s.i, env, st)
+                mv == i.st.cells[env[s.s]]
+                has == mv.mp # 0 /\ (i.v % 4) \in i.st.cells[mv.mp].pres
+            IN IF ~Ok(i.st) THEN R(env, i.st)
+               ELSE R(env, Emit1(i.st, <<"k", s.id, IF has THEN MapGet(i.st, mv, i.v % 4) ELSE -1>>))
+      [] s.k = "printm" ->
+            LET mv == st.cells[env[s.s]] IN
+            R(env, Emit1(st, <<"m", MapLen(st, mv), MapGet(st, mv, 0), MapGet(st, mv, 1), MapGet(st, mv, 2), MapGet(st, mv, 3)>>))
+      [] s.k = "msum" ->      \* for k, v := range m { x += k*7 + v } : the order of a map range is not specified, the sum is
+            LET mv == st.cells[env[s.s]]
+                T(k) == IF mv.mp # 0 /\ k \in st.cells[mv.mp].pres THEN k * 7 + st.cells[mv.mp].val[k] ELSE 0
+                n == st.cells[env[s.x]] + T(0) + T(1) + T(2) + T(3)
+            IN R(env, Chk(Store(st, env[s.x], n), n))
+      [] s.k = "sdef" ->      \* w := string expression
+            LET v == EvalStr(s.src, env, st) IN
+            IF Len(v) > MaxStr THEN R(env, [st EXCEPT !.status = "oor"])
+            ELSE R(Bind(env, s.s, NewId(st)), Alloc(st, [str |-> v]))
+      [] s.k = "sasg" ->      \* w = string expression  /  w += string expression
+            LET v == (IF s.op = "add" THEN st.cells[env[s.s]].str ELSE <<>>) \o EvalStr(s.src, env, st) IN
+            IF Len(v) > MaxStr THEN R(env, [st EXCEPT !.status = "oor"])
+            ELSE R(env, Store(st, env[s.s], [str |-> v]))
+      [] s.k = "sidx" ->      \* x = int(w[ix]) : faults when ix is not below len(w)
+            LET w == st.cells[env[s.s]].str IN
+            IF s.ix >= Len(w) THEN R(env, Panic(st, "fault")) ELSE R(env, Store(st, env[s.x], w[s.ix + 1]))
+      [] s.k = "ssub" ->      \* w2 := w1[lo:hi] : faults when hi exceeds len(w1)
+            LET w == st.cells[env[s.from]].str IN
+            IF s.hi > Len(w) THEN R(env, Panic(st, "fault"))
+            ELSE R(Bind(env, s.s, NewId(st)), Alloc(st, [str |-> SubSeq(w, s.lo + 1, s.hi)]))
+      [] s.k = "prints" ->
+            LET w == st.cells[env[s.s]].str IN R(env, Emit1(st, <<"w", Len(w), StrOf(w) \o "|">>))
+      [] s.k = "srng" ->      \* for i, ch := range w { print(i, ch) }
+            LET w == st.cells[env[s.s]].str
+                RECURSIVE SR(_, _)
+                SR(i, s0) == IF i > Len(w) THEN s0 ELSE SR(i + 1, Emit1(s0, <<"r", i - 1, w[i]>>))
+            IN R(env, SR(1, st))
+      [] s.k = "gscope" ->    \* { body }  G:    where the body may hold  goto G  (also from inside loops)
+            LET b == ExecB(P, s.body, env, st, ctx) IN
+            [env |-> env, st |-> b.st, ctl |-> IF b.ctl.k = "goto" /\ b.ctl.lab = s.lab THEN Next_ ELSE b.ctl]
+      [] s.k = "goto" -> [env |-> env, st |-> st, ctl |-> [k |-> "goto", lab |-> s.lab]]
+      [] s.k = "gloop" ->     \* x := 0;  G: { body };  if x < n { x++; goto G }      (a backward goto)
+            LET xc   == NewId(st)
+                env1 == Bind(env, s.x, xc)
+                RECURSIVE GL(_)
+                GL(s0) ==
+                  LET b == ExecB(P, s.body, env1, s0, ctx) IN
+                  IF ~Ok(b.st) \/ b.ctl.k # "next" THEN [st |-> b.st, ctl |-> b.ctl]
+                  ELSE IF b.st.cells[xc] < s.n
+                       THEN (IF b.st.fuel = 0 THEN [st |-> [b.st EXCEPT !.status = "fuel"], ctl |-> Next_]
+                             ELSE GL([Store(b.st, xc, b.st.cells[xc] + 1) EXCEPT !.fuel = @ - 1]))
+                       ELSE [st |-> b.st, ctl |-> Next_]
+                l == GL(Alloc(st, 0))
+            IN [env |-> env1, st |-> l.st, ctl |-> l.ctl]
+      [] s.k = "while" ->     \* for x < n { x++; body }   |   for { x++; if x >= n { break }; body }
+            LET RECURSIVE WL(_)
+                WL(s0) ==
+                  IF s0.fuel = 0 THEN [st |-> [s0 EXCEPT !.status = "fuel"], ctl |-> Next_] ELSE
+                  LET xv == s0.cells[env[s.x]]
+                      go == IF s.form = "cond" THEN xv < s.n ELSE xv + 1 < s.n
+                      s1 == [Store(s0, env[s.x], xv + 1) EXCEPT !.fuel = @ - 1]
+                  IN IF s.form = "cond" /\ ~go THEN [st |-> s0, ctl |-> Next_]
+                     ELSE IF ~go THEN [st |-> s1, ctl |-> Next_]
+                     ELSE LET b == ExecB(P, s.body, env, s1, ctx)
+                              x == LoopExit(b, s.lab)
+                          IN IF x.exit THEN [st |-> b.st, ctl |-> x.ctl] ELSE WL(b.st)
+                l == WL(st)
+            IN [env |-> env, st |-> l.st, ctl |-> l.ctl]
+      [] s.k = "rngsl" ->     \* for i, v := range s { body } : s is evaluated once, the elements are read when their turn comes
+            LET bc == st.cells[env[s.s]].back
+                RECURSIVE RS(_, _)
+                RS(i, s0) ==
+                  IF ~Ok(s0) \/ i >= 3 THEN [st |-> s0, ctl |-> Next_] ELSE
+                  LET ic == NewId(s0)
+                      s1 == Alloc(Alloc(s0, i), s0.cells[bc][i + 1])
+                      b  == ExecB(P, s.body, Bind(Bind(env, s.v, ic), s.vv, ic + 1), s1, ctx)
+                      x  == LoopExit(b, s.lab)
+                  IN IF x.exit THEN [st |-> b.st, ctl |-> x.ctl] ELSE RS(i + 1, b.st)
+                l == RS(0, st)
+            IN [env |-> env, st |-> l.st, ctl |-> l.ctl]
+      [] s.k = "rngarr" ->    \* for i, v := range arr { body } : ranges over a COPY of the array
+            LET c0 == st.cells[Env0.a0]
+                c1 == st.cells[Env0.a1]
+                RECURSIVE RA(_, _)
+                RA(i, s0) ==
+                  IF ~Ok(s0) \/ i >= 2 THEN [st |-> s0, ctl |-> Next_] ELSE
+                  LET ic == NewId(s0)
+                      s1 == Alloc(Alloc(s0, i), IF i = 0 THEN c0 ELSE c1)
+                      b  == ExecB(P, s.body, Bind(Bind(env, s.v, ic), s.vv, ic + 1), s1, ctx)
+                      x  == LoopExit(b, s.lab)
+                  IN IF x.exit THEN [st |-> b.st, ctl |-> x.ctl] ELSE RA(i + 1, b.st)
+                l == RA(0, st)
+            IN [env |-> env, st |-> l.st, ctl |-> l.ctl]
       [] s.k = "block" ->
             LET b == ExecB(P, s.body, env, st, ctx) IN [env |-> env, st |-> b.st, ctl |-> b.ctl]
 
